@@ -33,6 +33,15 @@
 (*                 reader Seek(0) -> Resp.Seek -> Resp.next on the source) *)
 (*   ReplyBroken   Req.BodyBytes requests: GetBody returns the drained     *)
 (*                 reader, a 307 cannot re-send the body                   *)
+(*   ReplyLoc      the POST is served but its Location header names        *)
+(*                 another host or scheme (upload location)                *)
+(*   hosts         identity of a host = name AND port: P has the name of A *)
+(*                 and another port (net/http copies sensitive headers to  *)
+(*                 it because it compares host names without ports; the    *)
+(*                 handler table, authAllowed and checkRedirect compare    *)
+(*                 URL.Host); Ac is A spelled in mixed case: the same      *)
+(*                 host on the wire, another key for every string          *)
+(*                 comparison in the client                                *)
 (*   loc           scheme/reg/blob.go:blobGetUploadURL / blobMount: the    *)
 (*                 upload URL is parsed relative to the FINAL url of the   *)
 (*                 POST (after redirects) and used as Req.DirectURL        *)
@@ -62,6 +71,9 @@
 (*     StripOnRedirect = TRUE  /repo since 7d8bea3 (checkRedirect drops a   *)
 (*                             forwarded Authorization when the host       *)
 (*                             changes)                                    *)
+(*     FoldCase = FALSE        authAllowed compares URL.Host with the       *)
+(*                             configured name case sensitively (known      *)
+(*                             finding C11-4); TRUE models its repair       *)
 (*     HonorsHost = FALSE      AuthCreds still ignores its host argument   *)
 (*                             (S3, known finding C11-1); TRUE models its  *)
 (*                             repair                                      *)
@@ -74,6 +86,7 @@ EXTENDS AuthObl, Naturals, Sequences, FiniteSets, TLC
 CONSTANTS
   HonorsHost,       \* AuthCreds returns credentials only for the clientHost's own hostname (not in /repo: S3)
   SchemeBound,      \* no credentials on a http URL of a host configured for TLS (in /repo since 14e04da)
+  FoldCase,         \* authAllowed compares host names case insensitively (findings/C11-4.patch, not in /repo)
   StripOnRedirect,  \* Authorization is removed when a redirect leaves the host, also to a sub domain (since 7d8bea3)
   MaxFaults,        \* number of replies (registry or token server) that differ from the natural one
   Confs,            \* configurations explored
@@ -81,7 +94,8 @@ CONSTANTS
   FaultKinds,       \* subset of {"nf","e5","err"}
   RedirTo,          \* set of <<host, scheme>> a 307 may point to
   TokReplies,       \* subset of {"tokr","deny","err"} (besides the natural "tok")
-  ForeignRealms     \* realms <<host, scheme>> an unconfigured host may name (besides X)
+  ForeignRealms,    \* realms <<host, scheme>> an unconfigured host may name (besides X)
+  LocTo             \* set of <<host, scheme>> an upload Location may name instead of the serving host
 
 VARIABLES
   cf,      \* configuration, fixed during a behaviour
@@ -94,6 +108,7 @@ VARIABLES
   gc,      \* continuation of a GenerateAuth that needs the network: [ctx, key, good, nto, nsch, copied]
   again,   \* the current request has already been attempted (Resp.retryCount > 1)
   sg,      \* "" | "done": nested GET on the source that re-opens a streamed body before a repeated attempt
+  sess,    \* host that holds the upload session (where the POST was served)
   loc,     \* upload location: <<host, scheme>> of the final URL of the last POST / PATCH (blobGetUploadURL)
   au,      \* handlers: <<clientHost, repoKey, urlHost, type>> -> handler
   nf,      \* faults used
@@ -102,13 +117,16 @@ VARIABLES
   wire,    \* history: messages sent (outside the VIEW)
   script   \* history: replies chosen by the servers (outside the VIEW)
 
-vars == <<cf, pc, ph, hosts, cur, rq, tk, gc, again, sg, loc, au, nf, named, leaks, wire, script>>
-View == <<cf, pc, ph, hosts, cur, rq, tk, gc, again, sg, loc, au, nf, named, leaks>>
+vars == <<cf, pc, ph, hosts, cur, rq, tk, gc, again, sg, sess, loc, au, nf, named, leaks, wire, script>>
+View == <<cf, pc, ph, hosts, cur, rq, tk, gc, again, sg, sess, loc, au, nf, named, leaks>>
 
 Regs == {"A", "B", "M"}
 TokOf(h) == CASE h = "A" -> "Ta" [] h = "B" -> "Tb" [] h = "M" -> "Tm" [] OTHER -> "X"
 \* Go: sensitive headers follow a redirect to the same host or to a sub domain of the first host
-SubDomain == {<<"A", "S">>}
+\* (it compares URL.Hostname(), so also to the same name on another port)
+SubDomain == {<<"A", "S">>, <<"A", "P">>, <<"P", "A">>}
+\* spelling variants of a host: the same host for the network and for the property
+Canon(h) == IF h = "Ac" THEN "A" ELSE h
 
 None == <<>>
 Pub == <<"pub">>                 \* token issued to an anonymous request: not a secret
@@ -136,7 +154,7 @@ Loc == <<"loc">>                        \* Req.DirectURL = the upload location
 \* Req.BodyBytes requests install a GetBody that returns the already drained reader: a 307 cannot
 \* re-send the body (manifest PUT)
 NoRebody(st) == st.meth = "PUT" /\ st.obj = "m"
-\* blob.go:BlobCopy, chain copying blob `o` from A to B in steps n..n+9; `next` is where the op continues
+\* blob.go:BlobCopy, chain copying blob `o` from A to B in steps n..n+10; `next` is where the op continues
 Chain(o, n, next, ext) ==
   << S("B", "r1", "HEAD", o, FALSE, <<>>, next, n + 1),        \* BlobHead on the target: exists = skip
      S("A", "r1", "GET", o, TRUE, <<>>, n + 3, IF ext THEN n + 2 ELSE 0),
@@ -145,9 +163,10 @@ Chain(o, n, next, ext) ==
      S("B", "r1", "POST", "u", FALSE, <<>>, n + 5, 0),         \* blobGetUploadURL (no digest in the URL)
      Src(S("B", "r1", "PUT", o, FALSE, Loc, next, IF ext THEN 0 ELSE n + 6)),   \* blobPutUploadFull
      S("A", "r1", "GET", o, TRUE, <<>>, n + 7, n + 9),         \* Seek(0) on the source reader = new GET
-     S("B", "r1", "PATCH", "u", FALSE, Loc, n + 8, n + 9),     \* blobPutUploadChunked
+     S("B", "r1", "PATCH", "u", FALSE, Loc, n + 8, n + 10),    \* blobPutUploadChunked
      S("B", "r1", "PUT", o, FALSE, Loc, next, n + 9),
-     S("B", "r1", "DELETE", "u", FALSE, Loc, 0, 0) >>          \* blobUploadCancel
+     S("B", "r1", "DELETE", "u", FALSE, Loc, 0, 0),            \* blobUploadCancel
+     S("B", "r1", "GET", "u", FALSE, Loc, n + 7, n + 9) >>     \* blobUploadStatus after a refused chunk
 CopyHead ==   \* image.go:imageCopyOpt: HEAD on the target; when it exists compare with a HEAD of the source
   << S("B", "r1", "HEAD", "m", FALSE, <<>>, 2, 3),
      S("A", "r1", "HEAD", "m", TRUE, <<>>, 99, 0),
@@ -165,12 +184,13 @@ Prog(op) ==
     [] op = "bput"  -> << Ign(S("A", "r1", "POST", "u", FALSE, <<>>, 3, 2)),   \* anonymous mount
                           S("A", "r1", "POST", "u", FALSE, <<>>, 3, 0),        \* blobGetUploadURL
                           S("A", "r1", "PUT", "u", FALSE, Loc, 99, 4),         \* blobPutUploadFull
-                          S("A", "r1", "PATCH", "u", FALSE, Loc, 5, 6),        \* blobPutUploadChunked
+                          S("A", "r1", "PATCH", "u", FALSE, Loc, 5, 7),        \* blobPutUploadChunked
                           S("A", "r1", "PUT", "u", FALSE, Loc, 99, 6),
-                          S("A", "r1", "DELETE", "u", FALSE, Loc, 0, 0) >>     \* blobUploadCancel
-    [] op = "copy"  -> CopyHead \o Chain("c", 4, 14, FALSE)
+                          S("A", "r1", "DELETE", "u", FALSE, Loc, 0, 0),       \* blobUploadCancel
+                          S("A", "r1", "GET", "u", FALSE, Loc, 4, 6) >>        \* blobUploadStatus after a refused chunk
+    [] op = "copy"  -> CopyHead \o Chain("c", 4, 15, FALSE)
                        \o << S("B", "r1", "PUT", "m", FALSE, <<>>, 99, 0) >>
-    [] op = "copyext" -> CopyHead \o Chain("c", 4, 14, FALSE) \o Chain("x", 14, 24, TRUE)
+    [] op = "copyext" -> CopyHead \o Chain("c", 4, 15, FALSE) \o Chain("x", 15, 26, TRUE)
                        \o << S("B", "r1", "PUT", "m", FALSE, <<>>, 99, 0) >>
 P == Prog(cf.op)
 Running == pc \in 1..Len(P)      \* 0 = failed, 99 = succeeded
@@ -179,7 +199,7 @@ Step == P[pc]
 \* external layer x is absent from A and M, every other host has everything)
 Natural(st, to) ==
   IF to = "B" THEN (IF st.meth \in {"HEAD", "GET"} THEN "404" ELSE "200")
-  ELSE IF st.direct = Loc THEN (IF to = loc[1] THEN "200" ELSE "404")   \* the session lives where it was opened
+  ELSE IF st.direct = Loc THEN (IF to = sess THEN "200" ELSE "404")   \* the session lives where it was opened
   ELSE IF st.obj = "x" /\ to \in {"A", "M"} /\ ~(st.direct # <<>> /\ st.direct[1] = "A") THEN "404"
   ELSE "200"
 
@@ -200,7 +220,7 @@ CredKind(h, asked) == IF HonorsHost /\ asked # h THEN "none" ELSE cf.cred[h]
 NewBasic == [realm |-> "", svc |-> "", sc |-> {}, tok |-> None, rt |-> None]
 NewBearer == [realm |-> <<>>, svc |-> "", sc |-> {}, tok |-> None, rt |-> None]
 \* may credentials be attached to a request for <<uh, sch>> on behalf of clientHost h
-Bound(h, uh, sch) == ~(SchemeBound /\ sch = "http" /\ uh = h /\ cf.tls[h])
+Bound(h, uh, sch) == ~(SchemeBound /\ sch = "http" /\ (IF FoldCase THEN Canon(uh) ELSE uh) = h /\ cf.tls[h])
 
 \* Auth.UpdateRequest for URL host uh: "none" | "basic" | "token" | "gen" | "err"
 UR(a, uh, sch) ==
@@ -223,7 +243,7 @@ NewLeaks(to, sch, secs, via) ==
   {[k |-> "O1", o |-> o, to |-> to, via |-> via] : o \in O1Bad(named, OwnersOf(secs), to)}
   \cup (IF O2Bad(TlsHosts, sch, to, OwnersOf(secs))
         THEN {[k |-> "O2", o |-> to, to |-> to, via |-> via]} ELSE {})
-M(to, sch, secs, via) == [to |-> to, sch |-> sch, secs |-> secs, via |-> via]
+M(to, sch, secs, via) == [to |-> Canon(to), sch |-> sch, secs |-> secs, via |-> via]
 Msgs(ms) ==   \* the messages of one step, in order
   /\ leaks' = leaks \cup UNION {NewLeaks(ms[i].to, ms[i].sch, ms[i].secs, ms[i].via) : i \in 1..Len(ms)}
   /\ wire' = wire \o [i \in 1..Len(ms) |-> [to |-> ms[i].to, sch |-> ms[i].sch, own |-> OwnersOf(ms[i].secs)]]
@@ -262,22 +282,24 @@ BeginGen(a, k, ctx, good, nto, nsch, copied, pre) ==
 (***************************************************************************)
 (* Outcomes of one attempt inside Resp.next                                *)
 (***************************************************************************)
-Finish(ok) ==
+FinishLoc(ok, l) ==
   /\ pc' = IF ok THEN Step.onok ELSE Step.onfail
-  /\ loc' = IF ok /\ Step.meth \in {"POST", "PATCH"} THEN <<rq.to, rq.sch>> ELSE loc
+  /\ loc' = IF ok /\ Step.meth \in {"POST", "PATCH"} THEN l ELSE loc
+  /\ sess' = IF ok /\ Step.meth = "POST" THEN Canon(rq.to) ELSE sess
   /\ ph' = "idle" /\ hosts' = <<>> /\ cur' = 1 /\ again' = FALSE /\ sg' = ""
   /\ rq' = NoRq /\ tk' = NoTk /\ gc' = NoGc
+Finish(ok) == FinishLoc(ok, <<rq.to, rq.sch>>)
 DropHost ==   \* dropHost: the host is removed, the loop goes on (or ends with an error)
   LET hs == SubSeq(hosts, 1, cur - 1) \o SubSeq(hosts, cur + 1, Len(hosts)) IN
   IF hs = <<>> THEN Finish(FALSE)
   ELSE /\ hosts' = hs /\ cur' = IF cur > Len(hs) THEN 1 ELSE cur
-       /\ ph' = "attempt" /\ rq' = NoRq /\ tk' = NoTk /\ gc' = NoGc /\ sg' = "" /\ again' = TRUE /\ UNCHANGED <<pc, loc>>
+       /\ ph' = "attempt" /\ rq' = NoRq /\ tk' = NoTk /\ gc' = NoGc /\ sg' = "" /\ again' = TRUE /\ UNCHANGED <<pc, loc, sess>>
 NextHost ==   \* backoff without dropping: curHost++
   /\ cur' = IF cur + 1 > Len(hosts) THEN 1 ELSE cur + 1
-  /\ ph' = "attempt" /\ rq' = NoRq /\ tk' = NoTk /\ gc' = NoGc /\ sg' = "" /\ again' = TRUE /\ UNCHANGED <<pc, hosts, loc>>
+  /\ ph' = "attempt" /\ rq' = NoRq /\ tk' = NoTk /\ gc' = NoGc /\ sg' = "" /\ again' = TRUE /\ UNCHANGED <<pc, hosts, loc, sess>>
 Backoff == IF Step.ign THEN DropHost ELSE NextHost     \* Req.IgnoreErr: no back-off, the host is dropped
 RetryHost ==  \* retryHost after a good challenge
-  /\ ph' = "attempt" /\ rq' = NoRq /\ tk' = NoTk /\ gc' = NoGc /\ sg' = "" /\ again' = TRUE /\ UNCHANGED <<pc, hosts, cur, loc>>
+  /\ ph' = "attempt" /\ rq' = NoRq /\ tk' = NoTk /\ gc' = NoGc /\ sg' = "" /\ again' = TRUE /\ UNCHANGED <<pc, hosts, cur, loc, sess>>
 
 (***************************************************************************)
 (* Client actions                                                          *)
@@ -286,12 +308,12 @@ StartDo ==
   /\ ph = "idle" /\ Running
   /\ hosts' = IF Step.mir /\ cf.mirror /\ Step.reg = "A" THEN <<"M", "A">> ELSE <<Step.reg>>
   /\ cur' = 1 /\ ph' = "attempt" /\ again' = FALSE /\ sg' = ""
-  /\ UNCHANGED <<cf, pc, rq, tk, gc, loc, au, nf, named, leaks, wire, script>>
+  /\ UNCHANGED <<cf, pc, rq, tk, gc, loc, sess, au, nf, named, leaks, wire, script>>
 
 End ==
   /\ ph = "idle" /\ ~Running
   /\ ph' = "end"
-  /\ UNCHANGED <<cf, pc, hosts, cur, rq, tk, gc, again, sg, loc, au, nf, named, leaks, wire, script>>
+  /\ UNCHANGED <<cf, pc, hosts, cur, rq, tk, gc, again, sg, sess, loc, au, nf, named, leaks, wire, script>>
 
 \* Auth.AddScope(h.Hostname, docker scope): only a bearer handler keyed by the clientHost's own name reacts
 AddScope(a) ==
@@ -316,7 +338,7 @@ SrcGet ==
   /\ Msgs(<<SrcM>>)
   /\ script' = Append(script, SrcOK)
   /\ sg' = "done"
-  /\ UNCHANGED <<cf, pc, ph, hosts, cur, rq, tk, gc, again, loc, au, nf, named>>
+  /\ UNCHANGED <<cf, pc, ph, hosts, cur, rq, tk, gc, again, loc, sess, au, nf, named>>
 
 Attempt ==
   /\ ph = "attempt" /\ ~NeedSrc
@@ -324,13 +346,13 @@ Attempt ==
          u == URL
          r == UR(a1, u[1], u[2])
      IN /\ au' = a1
-        /\ CASE r = "none"  -> SendRq(u[1], u[2], None, u[1], FALSE, FALSE, FALSE, <<>>) /\ UNCHANGED <<pc, hosts, cur, loc, again, sg>>
+        /\ CASE r = "none"  -> SendRq(u[1], u[2], None, u[1], FALSE, FALSE, FALSE, <<>>) /\ UNCHANGED <<pc, hosts, cur, loc, sess, again, sg>>
              [] r = "basic" -> SendRq(u[1], u[2], <<"cred", H>>, u[1], FALSE, FALSE, FALSE, <<>>)
-                               /\ UNCHANGED <<pc, hosts, cur, loc, again, sg>>
+                               /\ UNCHANGED <<pc, hosts, cur, loc, sess, again, sg>>
              [] r = "token" -> SendRq(u[1], u[2], a1[Key(u[1], "bearer")].tok, u[1], FALSE, FALSE, FALSE, <<>>)
-                               /\ UNCHANGED <<pc, hosts, cur, loc, again, sg>>
+                               /\ UNCHANGED <<pc, hosts, cur, loc, sess, again, sg>>
              [] r = "gen"   -> BeginGen(a1, Key(u[1], "bearer"), "attempt", FALSE, u[1], u[2], None, <<>>)
-                               /\ UNCHANGED <<pc, hosts, cur, rq, loc, again, sg>>
+                               /\ UNCHANGED <<pc, hosts, cur, rq, loc, sess, again, sg>>
              [] r = "err"   -> DropHost /\ UNCHANGED <<leaks, wire>>
   /\ UNCHANGED <<cf, nf, named, script>>
 
@@ -345,7 +367,7 @@ GenOK(a, tokv) ==   \* GenerateAuth returned "Bearer tokv"
                    brk |-> gc.ctx = "redirect" /\ NoRebody(Step)]
          /\ Msg(gc.nto, gc.nsch, {tokv}, Via(gc.nto, FALSE))
          /\ ph' = "wait" /\ tk' = NoTk /\ gc' = NoGc
-         /\ UNCHANGED <<pc, hosts, cur, loc, again, sg>>
+         /\ UNCHANGED <<pc, hosts, cur, loc, sess, again, sg>>
     [] gc.ctx = "race" ->
          /\ (IF gc.good \/ rq.az # tokv THEN RetryHost ELSE DropHost)
          /\ UNCHANGED <<leaks, wire>>
@@ -371,7 +393,7 @@ TokReply ==
                     LET secs == TokSecs(au, k, "get") IN
                     /\ tk' = [tk EXCEPT !.stage = "get", !.secs = secs]
                     /\ Msg(tk.to, tk.sch, secs, IF k[3] # k[1] THEN "foreign-handler" ELSE "own-handler")
-                    /\ UNCHANGED <<au, pc, ph, hosts, cur, rq, gc, loc, again, sg>>
+                    /\ UNCHANGED <<au, pc, ph, hosts, cur, rq, gc, loc, sess, again, sg>>
                [] r = "deny" /\ tk.stage = "get" -> au' = au /\ GenFail
                [] r = "err" -> au' = au /\ GenFail
   /\ UNCHANGED <<cf, named>>
@@ -379,14 +401,14 @@ TokReply ==
 (***************************************************************************)
 (* Registry replies                                                        *)
 (***************************************************************************)
-Rec(r) == script' = Append(script, [h |-> rq.to, o |-> Step.obj, r |-> r])
+Rec(r) == script' = Append(script, [h |-> Canon(rq.to), o |-> Step.obj, r |-> r])
 R0(t) == [t |-> t, c |-> "", realm |-> "", rs |-> "", svc |-> "", to |-> "", ts |-> ""]
 Budget == nf < MaxFaults
 
 ReplyNatural ==
   /\ ph = "wait" /\ ~rq.brk
   /\ Rec(R0("ok"))
-  /\ IF Natural(Step, rq.to) = "200" THEN Finish(TRUE) ELSE DropHost
+  /\ IF Natural(Step, Canon(rq.to)) = "200" THEN Finish(TRUE) ELSE DropHost
   /\ UNCHANGED <<cf, au, nf, named, leaks, wire>>
 
 \* the redirected request could not re-send its body: the round trip fails after the headers went out
@@ -440,9 +462,9 @@ HBearer(a, c, prev) ==
 
 Reply401 ==
   /\ ph = "wait" /\ Budget /\ ~rq.brk
-  /\ \E c \in Chals(rq.to) :
+  /\ \E c \in Chals(Canon(rq.to)) :
        /\ Rec(c)
-       /\ named' = IF c.c \in {"t", "bt"} THEN named \cup {<<rq.to, c.realm>>} ELSE named
+       /\ named' = IF c.c \in {"t", "bt"} THEN named \cup {<<Canon(rq.to), c.realm>>} ELSE named
        /\ CASE c.c \in {"none", "mal", "uns"} ->      \* empty / unparsable / unsupported challenge
                  au' = au /\ DropHost /\ UNCHANGED <<leaks, wire>>
             [] c.c \in {"bnr", "b1", "b2"} ->
@@ -454,7 +476,7 @@ Reply401 ==
                  LET t == HBearer(au, c, rq.az) IN
                  /\ au' = t.au
                  /\ IF t.gen THEN BeginGen(t.au, Key(rq.to, "bearer"), "race", FALSE, "", "", None, <<>>)
-                                  /\ UNCHANGED <<pc, hosts, cur, rq, loc, again, sg>>
+                                  /\ UNCHANGED <<pc, hosts, cur, rq, loc, sess, again, sg>>
                     ELSE (IF t.good /\ ~t.err THEN RetryHost ELSE DropHost) /\ UNCHANGED <<leaks, wire>>
             [] c.c = "bt" ->                           \* Basic first, then Bearer
                  LET b == HBasic(au, c, rq.az)
@@ -462,10 +484,20 @@ Reply401 ==
                  IN /\ au' = t.au
                     /\ IF t.err THEN DropHost /\ UNCHANGED <<leaks, wire>>
                        ELSE IF t.gen THEN BeginGen(t.au, Key(rq.to, "bearer"), "race", b.good, "", "", None, <<>>)
-                                          /\ UNCHANGED <<pc, hosts, cur, rq, loc, again, sg>>
+                                          /\ UNCHANGED <<pc, hosts, cur, rq, loc, sess, again, sg>>
                        ELSE (IF b.good \/ t.good THEN RetryHost ELSE DropHost) /\ UNCHANGED <<leaks, wire>>
   /\ nf' = nf + 1
   /\ UNCHANGED cf
+
+\* the POST is served, but the Location of the upload session names another host / scheme
+ReplyLoc ==
+  /\ ph = "wait" /\ Budget /\ ~rq.brk /\ Step.meth = "POST"
+  /\ Natural(Step, Canon(rq.to)) = "200"
+  /\ \E t \in LocTo :
+       /\ Rec([t |-> "lc", c |-> "", realm |-> "", rs |-> "", svc |-> "", to |-> t[1], ts |-> t[2]])
+       /\ FinishLoc(TRUE, t)
+  /\ nf' = nf + 1
+  /\ UNCHANGED <<cf, au, named, leaks, wire>>
 
 \* 307: net/http copies the headers of the first request (sensitive ones only inside the first
 \* host's domain), then checkRedirect runs Auth.UpdateRequest of the SAME clientHost for the new host
@@ -479,21 +511,21 @@ ReplyRedirect ==
            \* the header of the FIRST request of the chain is what gets copied
            copied == IF strip THEN None ELSE rq.az
            r == UR(au, to, sch)
-           rd == [h |-> rq.to, o |-> Step.obj,
+           rd == [h |-> Canon(rq.to), o |-> Step.obj,
                   r |-> [t |-> "rd", c |-> "", realm |-> "", rs |-> "", svc |-> "", to |-> to, ts |-> sch]]
            \* net/http re-opens the body with GetBody = BodyFunc: for a streamed blob a GET on the source
            pre == IF Step.src THEN <<SrcM>> ELSE <<>>
        IN /\ script' = IF Step.src THEN Append(Append(script, rd), SrcOK) ELSE Append(script, rd)
           /\ CASE r = "none"  -> SendRq(to, sch, IF Bound(H, to, sch) THEN copied ELSE None, rq.ini, strip,
                                         copied # None, NoRebody(Step), pre)
-                                 /\ UNCHANGED <<pc, hosts, cur, loc, again, sg>>
+                                 /\ UNCHANGED <<pc, hosts, cur, loc, sess, again, sg>>
                [] r = "basic" -> SendRq(to, sch, <<"cred", H>>, rq.ini, strip, FALSE, NoRebody(Step), pre)
-                                 /\ UNCHANGED <<pc, hosts, cur, loc, again, sg>>
+                                 /\ UNCHANGED <<pc, hosts, cur, loc, sess, again, sg>>
                [] r = "token" -> SendRq(to, sch, au[Key(to, "bearer")].tok, rq.ini, strip, FALSE, NoRebody(Step), pre)
-                                 /\ UNCHANGED <<pc, hosts, cur, loc, again, sg>>
+                                 /\ UNCHANGED <<pc, hosts, cur, loc, sess, again, sg>>
                [] r = "gen"   -> BeginGen(au, Key(to, "bearer"), "redirect", FALSE, to, sch, copied, pre)
                                  /\ rq' = [rq EXCEPT !.strip = strip]
-                                 /\ UNCHANGED <<pc, hosts, cur, loc, again, sg>>
+                                 /\ UNCHANGED <<pc, hosts, cur, loc, sess, again, sg>>
                [] r = "err"   -> Backoff /\ Msgs(pre)
   /\ nf' = nf + 1
   /\ UNCHANGED <<cf, au, named>>
@@ -501,12 +533,12 @@ ReplyRedirect ==
 Init ==
   /\ cf \in Confs
   /\ pc = 1 /\ ph = "idle" /\ hosts = <<>> /\ cur = 1
-  /\ rq = NoRq /\ tk = NoTk /\ gc = NoGc /\ loc = <<>> /\ again = FALSE /\ sg = ""
+  /\ rq = NoRq /\ tk = NoTk /\ gc = NoGc /\ loc = <<>> /\ sess = "" /\ again = FALSE /\ sg = ""
   /\ au = <<>> /\ nf = 0 /\ named = {} /\ leaks = {} /\ wire = <<>> /\ script = <<>>
 
 Next ==
   \/ StartDo \/ SrcGet \/ Attempt \/ TokReply
-  \/ ReplyNatural \/ ReplyBroken \/ ReplyFault \/ Reply401 \/ ReplyRedirect
+  \/ ReplyNatural \/ ReplyBroken \/ ReplyFault \/ Reply401 \/ ReplyRedirect \/ ReplyLoc
   \/ End
 
 Spec == Init /\ [][Next]_vars
